@@ -33,8 +33,16 @@ func GenScenario(r *hc.RNG, w Weights) *Scenario {
 	}
 	val := uint64(100)
 	nid := int64(0)
+	viaConn := r.Chance(60) // deliver through mtproto.Conn.handleMessage in random wire shapes
 	notif := func(kind string, target int64) {
-		sc.Env = append(sc.Env, Option{Kind: kind, ID: nid, Target: target, Val: val})
+		shape := ShapeDirect
+		if viaConn {
+			shape = 1 + r.Intn(NumShapes-2)
+			if kind == "nres" && r.Chance(6) {
+				shape = ShapeNestedGz
+			}
+		}
+		sc.Env = append(sc.Env, Option{Kind: kind, ID: nid, Target: target, Val: val, Shape: shape})
 		nid++
 		val++
 	}
@@ -79,7 +87,11 @@ func GenScenario(r *hc.RNG, w Weights) *Scenario {
 				k := r.Intn(j + 1)
 				ids[j], ids[k] = ids[k], ids[j]
 			}
-			sc.Env = append(sc.Env, Option{Kind: "ack", IDs: ids})
+			shape := AckDirect
+			if viaConn {
+				shape = 1 + r.Intn(NumAckShapes-1)
+			}
+			sc.Env = append(sc.Env, Option{Kind: "ack", IDs: ids, Shape: shape})
 		}
 	}
 	adv := w.Advances
